@@ -21,7 +21,10 @@ Import ListNotations.
 
     It is false of the faithful model, in two ways that both reproduce on the real code
     (C17_reversible_sound_refuted below, known findings C17-down-drop-table-blocked and
-    C17-autoindex-drop-wrong-index).  What is proved (partial):
+    C17-autoindex-drop-wrong-index; the latter is FIXED in the Go code since the patch
+    "sqlite planner rebuilds the table when the dropped index backs an inline UNIQUE constraint":
+    [alterable] of PlanModel.v follows it, the drop of an inline UNIQUE is now a table rebuild, which
+    is not flagged reversible).  What is proved (partial):
 
     (a) [C17_reversible_sound_partial]: every well-formed engine state [d] (rows included, any
         [foreign_keys] / transaction flag), every [from], every well-formed desired schema [to] and
@@ -71,7 +74,8 @@ Print Assumptions C17_reversible_sound_partial.
     UNIQUE constraints, and every explicit index has a name outside the sqlite_autoindex namespace, an
     inspected form that is a fixed point of [inspect_index], that CREATE INDEX accepts and that the
     rows satisfy when UNIQUE.  The exceptions are exactly the refuting inputs: an inline UNIQUE
-    ([idx_ok] fails: known finding C17-autoindex-drop-wrong-index), a created table that cannot be
+    ([idx_ok] fails: the former known finding C17-autoindex-drop-wrong-index, fixed, see the header; the
+    premise is kept because the proof is by the ALTER path of a catalogue without inline UNIQUE), a created table that cannot be
     dropped again ([droppable_along] fails: C17_reversible_sound_refuted), and -- outside this
     theorem -- DropTable changes (C17_reversible_sound_droptables_partial). *)
 Theorem C17_reversible_sound_except :
@@ -506,6 +510,40 @@ Example C17_alter_nonvacuous :
     Some [mkArm KCheckNamed [107]%N; mkArm KOther [97]%N; mkArm KDropConst [100]%N] /\
   (* an added table attribute next to a reversible arm: no reverse *)
   alterTable_mysql [mkArm KAttr [116]%N; mkArm KOther [99]%N] = None.
+Proof. vm_compute. auto. Qed.
+
+(** ** 2a'. One sub-change carrying several change kinds (PostgreSQL ModifyColumn)
+
+    A ModifyColumn carries a set of change kinds (TYPE, NULL, DEFAULT, identity attribute, generation
+    expression); [alterColumn] writes one ALTER COLUMN clause per kind and the ModifyColumn arm of
+    [alterTable] decides per kind: the ChangeGenerated bit (DROP EXPRESSION) clears the flag.  For
+    every set of kinds with that bit, every column, and every list of arms before and after it: the
+    ALTER carries no reverse (tied to postgres.DefaultPlan on every subset of up to three kinds of a
+    ModifyColumn, alone and next to another sub-change on either side). *)
+Theorem C17_alter_kinds_irreversible :
+  forall (pre post : list arm) (k : ckinds) (col : bytes),
+  k_generated k = true ->
+  alterTable_mysql (pre ++ mkArm (KModCol k) col :: post) = None /\
+  alterTable_postgres (pre ++ mkArm (KModCol k) col :: post) = None.
+Proof. exact alter_kinds_lemma. Qed.
+Print Assumptions C17_alter_kinds_irreversible.
+
+(** ... and a change that does carry a reverse undoes every clause of its Cmd, kind by kind: the clauses
+    ("<kind>:<object>", one per change kind of a ModifyColumn) of the reverse are exactly those of the
+    Cmd -- no kind is left out of the reverse and none is added. *)
+Theorem C17_alter_kinds_complete :
+  forall (arms r : list arm) (c : bytes),
+  (alterTable_mysql arms = Some r) \/ (alterTable_postgres arms = Some r) ->
+  (In c (flat_map arm_clauses arms) <-> In c (flat_map arm_clauses r)).
+Proof. exact alter_clauses_lemma. Qed.
+Print Assumptions C17_alter_kinds_complete.
+
+Example C17_alter_kinds_nonvacuous :
+  (* TYPE + NULL next to a new column: reversed, the two clauses in alterColumn's order *)
+  reverse_objects (alterTable_postgres [mkArm (KModCol (mkKinds true true false false false)) [99]%N; mkArm KOther [110]%N]) =
+    Some [[110]%N; C_TYPE ++ [99]%N; C_NULL ++ [99]%N] /\
+  (* TYPE + DROP EXPRESSION: none *)
+  alterTable_postgres [mkArm KOther [110]%N; mkArm (KModCol (mkKinds true false false false true)) [99]%N] = None.
 Proof. vm_compute. auto. Qed.
 
 (** ** 2b. The flag of the SQLite planner (sql/sqlite/migrate.go: PlanChanges)
